@@ -812,7 +812,7 @@ def rule_serial_model(ctx) -> None:
     cases = [("a good data frame", good, ("return", payload), [ack]),
              ("not-ready bytes before a good frame", b"\x00\x00" + good, ("return", payload), [ack]),
              ("a good command frame", ref_frame(CMD, cmdp), ("return", ("response", cmdp)), [ack]),
-             ("a zero-length frame (abort)", _st.pack("<BBHH", START, DATA, 0, 0), ("raise", None), None),
+             ("a zero-length frame (abort)", _st.pack("<BBHH", START, DATA, 0, 0), ("raise", None), [ack]),
              ("an abort frame", bytes([START, ABORT]), ("raise", None), None),
              ("a byte that is no frame start", b"\x11\x22" + good, ("raise", None), None)]
     for i in range(len(good)):
@@ -953,6 +953,61 @@ def rule_process_cmd_model(ctx) -> None:
     ctx.chk.decide(not probs, "C10.process-cmd-model", fn.qual, f"packet written once, one response read and returned, status mirrored ({n} models)", "; ".join(probs[:2])[:600], "", A.loc(MB, fn.node))
 
 
+def rule_response_model(ctx) -> None:
+    """C10.response-model: parse_cmd_response interpreted (the response classes' own constructors stepped into) on model response
+    packets: for every known response tag the object has the class the registry names and carries status, command tag, length and
+    values exactly as the packet holds them; an unknown tag still yields a response with the packet's status."""
+    import struct as _st
+    from ..engines import roundtrip
+    classes = {c.name: c for c in ctx.prog.classes.values() if c.module.relpath == MBC}
+    fn = ctx.func(MBC, "parse_cmd_response")
+    rt = ctx.enum_model(ctx.cls(MBC, "ResponseTag"))
+    if rt is None:
+        raise AnalysisError("C10.response-model: ResponseTag does not fold to an enum model")
+    calls = ctx.model_calls(roundtrip.std_leaves, classes=classes, module=MBC, max_depth=6)
+
+    def pkt(tag, *params):
+        return _st.pack(f"<4B{len(params)}I", tag, 0, 0, len(params), *params)
+    cases = [("GENERIC", "GenericResponse", (10203, 0x04), {"status": 10203, "cmd_tag": 4}),
+             ("GENERIC", "GenericResponse", (0, 0x03), {"status": 0, "cmd_tag": 3}),
+             ("READ_MEMORY", "ReadMemoryResponse", (0, 0x1234), {"status": 0, "length": 0x1234}),
+             ("READ_MEMORY", "ReadMemoryResponse", (10200, 0), {"status": 10200, "length": 0}),
+             ("GET_PROPERTY", "GetPropertyResponse", (0, 11, 22), {"status": 0, "values": (11, 22)}),
+             ("GET_PROPERTY", "GetPropertyResponse", (10300,), {"status": 10300, "values": ()}),
+             ("FLASH_READ_ONCE", "FlashReadOnceResponse", (0, 4, 0xA1B2C3D4), {"status": 0, "length": 4, "values": (0xA1B2C3D4,)}),
+             ("FLASH_READ_RESOURCE", "FlashReadResourceResponse", (0, 64), {"status": 0, "length": 64}),
+             ("KEY_BLOB_RESPONSE", "ReadMemoryResponse", (0, 72), {"status": 0, "length": 72}),
+             ("KEY_PROVISIONING_RESPONSE", "KeyProvisioningResponse", (0, 48), {"status": 0, "length": 48}),
+             ("TRUST_PROVISIONING_RESPONSE", "TrustProvisioningResponse", (0, 7, 8, 9), {"status": 0, "values": (7, 8, 9)}),
+             (None, "CmdResponse", (5,), {"status": 5})]
+    probs: List[str] = []
+    n = 0
+    for tname, cname, params, want in cases:
+        tag = rt.__dict__[tname].tag if tname else 0xBB
+        data = pkt(tag, *params)
+        try:
+            env_r: Dict[str, Any] = {"data": data}
+            a_ = fn.node.args  # the callers pass the packet only: every other parameter takes its declared default
+            for p_, d_ in zip(a_.args[len(a_.args) - len(a_.defaults):], a_.defaults):
+                env_r[p_.arg] = ordereval.Evaluator({}, ctx.fold_sym(fn)).ev(d_)
+            out = ordereval.Evaluator(env_r, ctx.fold_sym(fn), opaque_return=False, call_value=calls).run(A.body_of(fn.node))
+        except ordereval.ModelRaise:
+            out = ordereval.Outcome("raise", None, fn.node)
+        except ordereval.Unsupported as ex:
+            raise AnalysisError(f"C10.response-model: parse_cmd_response left the fragment on a {tname or 'unknown'} packet: {ex}")
+        n += 1
+        v = out.value
+        got_cls = v.__dict__["_cls"].name if isinstance(v, Obj) and "_cls" in v.__dict__ else None
+        got = {k_: (tuple(v.__dict__[k_]) if isinstance(v.__dict__.get(k_), (tuple, list)) else v.__dict__.get(k_)) for k_ in want} if isinstance(v, Obj) else {}
+        hdr_ok = isinstance(v, Obj) and isinstance(v.__dict__.get("header"), Obj) and v.header.__dict__.get("tag") == tag and v.header.__dict__.get("params_count") == len(params)
+        if out.kind != "return" or got_cls != cname or got != want or not hdr_ok:
+            probs.append(f"{tname or 'unknown tag'} packet with parameters {params}: {out.kind} {got_cls} {got}; the packet says {cname} {want}")
+    ctx.chk.analysed(fn.qual)
+    ctx.chk.exhaustive_rules.add("C10.response-model")
+    ctx.chk.decide(not probs, "C10.response-model", fn.qual, f"responses carry class, status, command tag, length and values exactly as the packet holds them ({n} model packets, every registered tag)",
+                   "; ".join(probs[:2])[:600], "", A.loc(MBC, fn.node))
+
+
 def rule_sdp_status_rearm(ctx) -> None:
     """C10.sdp-status-rearm: on the serial SDP link the reader tells a HAB status word from data by the flag `expect_status`; SDP._read_data
     clears it for the data phase.  Every frame written to the device therefore re-arms it: a method of the protocol class that calls
@@ -1005,6 +1060,7 @@ def run(ctx) -> None:
     ctx.rule(rule_serial_model)
     ctx.rule(rule_hid_model)
     ctx.rule(rule_process_cmd_model)
+    ctx.rule(rule_response_model)
     ctx.rule(rule_sdp_status_rearm)
     ctx.chk.assumptions = ["device reads raise on timeout (interfaces/device/base.py contract)", "the interface models used for the loop evaluation return at most the requested number of bytes",
                            "not decided: arbitrary fault histories, exact bytes on the wire, USB-HID report framing"]
